@@ -35,7 +35,21 @@ def _is_guard(s):
 
 
 def _no_guards(stmts):
-    return [s for s in stmts if not _is_guard(s)]
+    """drop `if c: raise ...` guards; flatten `if c: <S> else: raise ...` and `if c: raise ... else: <S>` to <S>:
+    in every spelling <S> runs exactly when nothing is raised"""
+    out = []
+    for s in stmts:
+        if _is_guard(s):
+            continue
+        if isinstance(s, ast.If) and s.orelse and s.body:
+            if all(isinstance(b, ast.Raise) for b in s.orelse):
+                out += _no_guards(s.body)
+                continue
+            if all(isinstance(b, ast.Raise) for b in s.body):
+                out += _no_guards(s.orelse)
+                continue
+        out.append(s)
+    return out
 
 
 def _pure(node):
